@@ -478,7 +478,7 @@ def run_property(plugin, argv):
                     if not axs <= allowed:
                         ctx.broken("axioms:%s depends on %s" % (n, sorted(axs - allowed)))
             for n in names:
-                ctx.thm_status[n] = "refuted-witness" if n.endswith("_refuted") else (
+                ctx.thm_status[n] = "refuted-witness" if ("_refuted" in n) else (
                     "partial" if "_partial" in n else "full")
         bad = hygiene([f for f in files if not f.startswith("Gen/")] + [f for f in files if f.startswith("Gen/")])
         for b in bad:
